@@ -615,6 +615,7 @@ pub fn replay(_ctx: &Ctx, _monitor: &str, case: &Value, st: &mut Stats) {
             st.evals += 1;
             let ord = if ordering.is_empty() { None } else { Some(ordering.clone()) };
             let ord2 = ord.clone();
+            util::budget(20_000_000, 100_000);
             let r = guarded(|| ParsedFormula::new_with_env(Rc::clone(&env), &mut BufReader::new(text.as_bytes()), ord).map(|pf| pf.eval()));
             let Ok(Ok(d)) = r else {
                 if let Err(c) = r {
